@@ -1,4 +1,167 @@
 import UvModel.Inet
 import UvModel.Lemmas.InetLemmas
+/-!
+  C18 (address half): property theorems over the model `UvModel.Inet` of src/inet.c,
+  src/uv-common.c:254-321 and src/strscpy.c.  Bytes/chars are `Nat` byte values; text constants:
+  46 = '.', 58 = ':', 37 = '%', 48.. = '0'...  Grammar (`DottedQuad`, `Ipv6Text`) is in UvModel/Inet.lean.
+-/
 namespace UvModel.Props.C18Inet
+open UvModel.Inet
+
+/-! ## uv__strscpy -/
+
+/-- never writes at or past index `n`, never changes the buffer length (any `d`, `s`, `n`) -/
+theorem strscpy_never_past_size (d s : List Nat) (n : Nat) :
+    (strscpy d s n).2.length = d.length ∧ (strscpy d s n).2.drop n = d.drop n :=
+  ⟨strscpyLoop_len s n 0 d, strscpyLoop_frame s n 0 d (Nat.zero_le _)⟩
+
+/-- with `n > 0` the destination always holds a NUL-terminated string inside the first `n` bytes:
+    the longest prefix of the source that fits (`n-1` chars) -/
+theorem strscpy_nul_terminates (d s : List Nat) (n : Nat) (h0 : 0 < n) (hn : n ≤ d.length)
+    (hmax : n ≤ SSIZE_MAX + 1) :
+    cstr (strscpy d s n).2 = (cstr s).take (n - 1) ∧ (cstr (strscpy d s n).2).length < n := by
+  have hz : ∀ c ∈ cstr s, c ≠ 0 := by
+    intro c hc; have := List.mem_takeWhile_imp hc; simpa using this
+  rw [strscpy_spec d s n hn hmax, if_neg (by omega)]
+  split
+  · rename_i h
+    rw [show ((cstr s).length : Int, cstr s ++ 0 :: d.drop ((cstr s).length + 1)).2 = _ from rfl,
+      cstr_append_nul _ _ hz, List.take_of_length_le (by omega)]
+    exact ⟨rfl, h⟩
+  · rename_i h
+    have hz' : ∀ c ∈ (cstr s).take (n - 1), c ≠ 0 := fun c hc => hz c (List.mem_of_mem_take hc)
+    rw [show (UV_E2BIG, (cstr s).take (n - 1) ++ 0 :: d.drop n).2 = _ from rfl, cstr_append_nul _ _ hz']
+    exact ⟨rfl, by simp; omega⟩
+
+/-- returns `UV_E2BIG` iff the source did not fit (was truncated); otherwise the source length -/
+theorem strscpy_e2big_iff_truncated (d s : List Nat) (n : Nat) (h0 : 0 < n) (hn : n ≤ d.length)
+    (hmax : n ≤ SSIZE_MAX + 1) :
+    ((strscpy d s n).1 = UV_E2BIG ↔ n ≤ (cstr s).length) ∧
+    ((cstr s).length < n → (strscpy d s n).1 = (cstr s).length) := by
+  rw [strscpy_spec d s n hn hmax, if_neg (by omega)]
+  split
+  · rename_i h
+    refine ⟨⟨fun he => ?_, fun hle => by omega⟩, fun _ => rfl⟩
+    simp [UV_E2BIG] at he; omega
+  · rename_i h
+    exact ⟨⟨fun _ => by omega, fun _ => rfl⟩, fun hlt => by omega⟩
+
+example : strscpy [170, 170, 170, 170] [104, 105] 4 = (2, [104, 105, 0, 170]) := by decide
+example : strscpy [170, 170, 170, 170] [104, 105, 106, 107, 108] 4 = (UV_E2BIG, [104, 105, 106, 0]) := by decide
+
+/-! ## inet_pton4 -/
+
+/-- `inet_pton4` accepts exactly the dotted-quad grammar, with the grammar's value -/
+theorem pton4_accepts_iff_spec (s v : List Nat) : pton4 s = some v ↔ DottedQuad s v := by
+  rw [pton4_iff_fmt4, dottedQuad_iff]
+
+/-- an accepted value is four bytes, each the decimal value (≤ 255) of its octet text -/
+theorem pton4_value (s v : List Nat) (h : pton4 s = some v) :
+    ∃ t1 t2 t3 t4 a b c d, s = t1 ++ 46 :: (t2 ++ 46 :: (t3 ++ 46 :: t4)) ∧ v = [a, b, c, d] ∧
+      a = decVal t1 ∧ b = decVal t2 ∧ c = decVal t3 ∧ d = decVal t4 ∧ a ≤ 255 ∧ b ≤ 255 ∧ c ≤ 255 ∧ d ≤ 255 := by
+  obtain ⟨t1, t2, t3, t4, a, b, c, d, h1, h2, h3, h4, hs, hv⟩ := (pton4_accepts_iff_spec s v).1 h
+  exact ⟨t1, t2, t3, t4, a, b, c, d, hs, hv, h1.2.2.2.2.1.symm, h2.2.2.2.2.1.symm, h3.2.2.2.2.1.symm,
+    h4.2.2.2.2.1.symm, h1.2.2.2.2.2, h2.2.2.2.2.2, h3.2.2.2.2.2, h4.2.2.2.2.2⟩
+
+example : pton4 [49, 50, 55, 46, 48, 46, 48, 46, 49] = some [127, 0, 0, 1] := by decide   -- "127.0.0.1"
+example : pton4 [49, 46, 50, 46, 51, 46, 48, 52] = none := by decide                     -- "1.2.3.04"
+example : pton4 [50, 53, 54, 46, 48, 46, 48, 46, 49] = none := by decide                 -- "256.0.0.1"
+
+/-! ## inet_ntop4 -/
+
+/-- the printed text has 7..15 characters: `tmp[16]` never truncates -/
+theorem ntop4_len (src : List Nat) : 7 ≤ (fmt4 src).length ∧ (fmt4 src).length ≤ 15 := fmt4_len src
+
+/-- round trip for all 2^32 addresses: what `inet_ntop4` prints parses back to the same bytes -/
+theorem ntop4_pton4 (a b c d : Nat) (ha : a ≤ 255) (hb : b ≤ 255) (hc : c ≤ 255) (hd : d ≤ 255) :
+    pton4 (fmt4 [a, b, c, d]) = some [a, b, c, d] := pton4_fmt4 a b c d ha hb hc hd
+
+/-- … and it is the only accepted spelling of that address -/
+theorem pton4_canonical (s : List Nat) (a b c d : Nat) (h : pton4 s = some [a, b, c, d]) : s = fmt4 [a, b, c, d] := by
+  obtain ⟨a', b', c', d', _, _, _, _, hv, hs⟩ := (pton4_iff_fmt4 s _).1 h
+  simp at hv; obtain ⟨rfl, rfl, rfl, rfl⟩ := hv; exact hs
+
+/-- `size ≤ len` ⇒ UV_ENOSPC and the buffer is untouched; otherwise exactly text ++ NUL is stored and
+    every byte after it (in particular everything at or past `size`) is unchanged -/
+theorem ntop4_enospc_iff (src d : List Nat) (size : Nat) (hn : size ≤ d.length) (hmax : size ≤ SSIZE_MAX + 1) :
+    ntop4 src d size =
+      if size ≤ (fmt4 src).length then (UV_ENOSPC, d)
+      else (0, fmt4 src ++ 0 :: d.drop ((fmt4 src).length + 1)) := ntop4_spec src d size hn hmax
+
+/-- the full path through the buffer: success ⇒ the C string left in `dst` parses back to the address -/
+theorem uv_ip4_name_addr_roundtrip (a b c d : Nat) (ha : a ≤ 255) (hb : b ≤ 255) (hc : c ≤ 255) (hd : d ≤ 255)
+    (dst : List Nat) (size : Nat) (hn : size ≤ dst.length) (hmax : size ≤ SSIZE_MAX + 1)
+    (hok : (uvIp4Name [a, b, c, d] dst size).1 = 0) :
+    uvIp4Addr (cstr (uvIp4Name [a, b, c, d] dst size).2) = (0, [a, b, c, d]) := by
+  simp only [uvIp4Name, uvInetNtop, uvIp4Addr, uvInetPton, if_true] at hok ⊢
+  rw [ntop4_spec _ _ _ hn hmax] at hok ⊢
+  split at hok
+  · simp [UV_ENOSPC] at hok
+  · rename_i h
+    rw [if_neg h]
+    simp only []
+    rw [cstr_append_nul _ _ (fmt4_ne_zero _), pton4_fmt4 a b c d ha hb hc hd]; rfl
+
+example : ntop4 [192, 168, 0, 1] (List.replicate 12 170) 12 = (0, [49, 57, 50, 46, 49, 54, 56, 46, 48, 46, 49, 0]) := by decide
+example : ntop4 [192, 168, 0, 1] (List.replicate 11 170) 11 = (UV_ENOSPC, List.replicate 11 170) := by decide
+
+/-! ## inet_ntop6 -/
+
+/-- for every 16-byte address `inet_ntop6` produces a text (the inner `inet_ntop4` never fails),
+    of at most 45 characters (it fits `tmp[46]` with its NUL; the bound proved is 41) -/
+theorem ntop6_len (src : List Nat) (hsrc : ∀ j, src.getD j 0 < 256) :
+    ∃ t, ntop6Text src = .ok t ∧ t.length ≤ 45 := by
+  obtain ⟨t, ht, hl, _⟩ := ntop6Text_ok src hsrc
+  exact ⟨t, ht, by omega⟩
+
+/-- the text consists of `0-9`, `a-f`, ':' and '.' only (in particular no NUL) -/
+theorem ntop6_charset (src t : List Nat) (hsrc : ∀ j, src.getD j 0 < 256) (ht : ntop6Text src = .ok t) :
+    ∀ c ∈ t, (48 ≤ c ∧ c ≤ 57) ∨ (97 ≤ c ∧ c ≤ 102) ∨ c = 58 ∨ c = 46 := by
+  obtain ⟨t', ht', _, hc⟩ := ntop6Text_ok src hsrc
+  rw [ht] at ht'; cases ht'; exact hc
+
+/-- `size ≤ len` ⇒ UV_ENOSPC, buffer untouched; otherwise exactly text ++ NUL, rest unchanged -/
+theorem ntop6_enospc_iff (src d : List Nat) (size : Nat) (hsrc : ∀ j, src.getD j 0 < 256)
+    (hn : size ≤ d.length) (hmax : size ≤ SSIZE_MAX + 1) :
+    ∃ t, ntop6Text src = .ok t ∧
+      ntop6 src d size = if size ≤ t.length then (UV_ENOSPC, d) else (0, t ++ 0 :: d.drop (t.length + 1)) := by
+  obtain ⟨t, ht, _, hc⟩ := ntop6Text_ok src hsrc
+  exact ⟨t, ht, ntop6_spec src d t size ht (fun c h => okChar6_ne_zero c (hc c h)) hn hmax⟩
+
+-- 2001:db8::1  and ::ffff:1.2.3.4
+example : ntop6Text [0x20, 0x01, 0x0d, 0xb8, 0, 0, 0, 0, 0, 0, 0, 0, 0, 0, 0, 1]
+    = .ok [50, 48, 48, 49, 58, 100, 98, 56, 58, 58, 49] := by decide
+example : ntop6Text [0, 0, 0, 0, 0, 0, 0, 0, 0, 0, 0xff, 0xff, 1, 2, 3, 4]
+    = .ok [58, 58, 102, 102, 102, 102, 58, 49, 46, 50, 46, 51, 46, 52] := by decide
+
+/-! ## inet_pton6 -/
+
+/-- soundness: whatever `inet_pton6` accepts is RFC 4291 text (grammar `Ipv6Text`) and the bytes
+    returned are the grammar's value (groups in order, zeros where "::" stood, quad bytes last) -/
+theorem pton6_accepts_sound (s v : List Nat) (h : pton6 s = some v) : Ipv6Text s v := pton6_sound s v h
+
+/-- no accepted text is longer than 45 characters -/
+theorem pton6_accept_len (s v : List Nat) (h : pton6 s = some v) : s.length ≤ 45 := pton6_len s v h
+
+example : pton6 [58, 58, 49] = some [0, 0, 0, 0, 0, 0, 0, 0, 0, 0, 0, 0, 0, 0, 0, 1] := by decide          -- "::1"
+example : pton6 [49, 58, 58] = some [0, 1, 0, 0, 0, 0, 0, 0, 0, 0, 0, 0, 0, 0, 0, 0] := by decide          -- "1::"
+example : pton6 [58, 58, 102, 102, 102, 102, 58, 49, 46, 50, 46, 51, 46, 52]
+    = some [0, 0, 0, 0, 0, 0, 0, 0, 0, 0, 0xff, 0xff, 1, 2, 3, 4] := by decide                              -- "::ffff:1.2.3.4"
+example : pton6 [58, 49] = none := by decide                                                               -- ":1"
+example : pton6 [49, 58, 58, 50, 58, 58, 51] = none := by decide                                           -- "1::2::3"
+
+/-! ## %zone handling -/
+
+/-- `uv_inet_pton(AF_INET6, a%z)` ignores the zone: same result as the bare address, for every `a`, `z` -/
+theorem inetpton6_zone (a z : List Nat) (h : 37 ∉ a) :
+    uvInetPton AF_INET6 (a ++ 37 :: z) = uvInetPton AF_INET6 a := by
+  rw [uvInetPton6_zone a z h, uvInetPton6_nopct a h]
+
+/-- `uv_ip6_addr(a ++ "%" ++ z)` gives the same accept/reject and bytes as `uv_inet_pton(AF_INET6, a)`
+    for every address part `a` without '%', of any length (46-byte `address_part`, ≥ 46 ⇒ EINVAL) -/
+theorem ip6addr_zone (a z : List Nat) (h : 37 ∉ a) :
+    uvIp6Addr (a ++ 37 :: z) = uvInetPton AF_INET6 a := uvIp6Addr_zone a z h
+
+example : uvIp6Addr [58, 58, 49, 37, 108, 111] = (0, [0, 0, 0, 0, 0, 0, 0, 0, 0, 0, 0, 0, 0, 0, 0, 1]) := by decide  -- "::1%lo"
+
 end UvModel.Props.C18Inet
